@@ -89,6 +89,7 @@ type Env struct {
 	loops    []*ssau.Loop
 	ivs      []*IV
 	ivDone   bool
+	ivBuild  bool // IVs are being recognised: loop-carried accumulators are not resolved yet
 }
 
 func NewEnv(fn *ssa.Function) *Env {
@@ -267,6 +268,9 @@ func (e *Env) isLoopHeader(b *ssa.BasicBlock) bool {
 // named after the SSA register. Integer conversions are identities
 // (no-overflow assumption).
 func (e *Env) Int(v ssa.Value) Poly {
+	if !e.ivDone {
+		e.IVs()
+	}
 	if p, ok := e.cache[v]; ok {
 		return p
 	}
@@ -333,6 +337,11 @@ func (e *Env) int1(v ssa.Value) Poly {
 			}
 		}
 	case *ssa.Phi:
+		if e.isLoopHeader(x.Block()) && !e.ivBuild {
+			if p, ok := e.accumulator(x); ok {
+				return p
+			}
+		}
 		if !e.isLoopHeader(x.Block()) {
 			var first *Poly
 			same := true
@@ -611,8 +620,11 @@ func (e *Env) CellValue(ld *ssa.UnOp) (ssa.Value, bool) {
 		return nil, false
 	}
 	for _, esc := range e.escapes[al] {
-		if _, isClosure := esc.In.(*ssa.MakeClosure); isClosure {
-			return nil, false
+		if mc, isClosure := esc.In.(*ssa.MakeClosure); isClosure {
+			// a closure that only reads the captured variable does not change it
+			if closureWrites(mc, al) {
+				return nil, false
+			}
 		}
 	}
 	return sts[0].St.Val, true
@@ -789,4 +801,102 @@ func arrayOf(t types.Type) *types.Array {
 	}
 	a, _ := t.Underlying().(*types.Array)
 	return a
+}
+
+// accumulator resolves a loop-carried accumulator — a header phi φ(c0, φ + k)
+// whose every back edge carries φ + k with c0 and k loop-invariant, in a loop
+// that has a canonical induction variable i over [Lo, Hi) — to its closed form
+// at the top of an iteration: c0 + k·(i − Lo). A `continue` before the
+// increment or a conditional increment makes the back-edge values differ and
+// the phi stays opaque.
+func (e *Env) accumulator(phi *ssa.Phi) (Poly, bool) {
+	if !isInt(phi.Type()) {
+		return Poly{}, false
+	}
+	var loop *ssau.Loop
+	for _, l := range e.loops {
+		if l.Header == phi.Block() {
+			loop = l
+		}
+	}
+	if loop == nil {
+		return Poly{}, false
+	}
+	iv := e.IVOfLoop(loop)
+	if iv == nil || iv.Phi == phi {
+		return Poly{}, false
+	}
+	self := e.opaque(phi)
+	var c0, k *Poly
+	for i, ed := range phi.Edges {
+		if loop.Blocks[phi.Block().Preds[i]] {
+			// φ ± k read off the instruction itself (independent of evaluation order)
+			var d Poly
+			if bo, ok := ed.(*ssa.BinOp); ok && (bo.Op == token.ADD || bo.Op == token.SUB) && (bo.X == ssa.Value(phi) || (bo.Y == ssa.Value(phi) && bo.Op == token.ADD)) {
+				switch {
+				case bo.X == ssa.Value(phi) && bo.Op == token.ADD:
+					d = e.Int(bo.Y)
+				case bo.X == ssa.Value(phi):
+					d = e.Int(bo.Y).Neg()
+				default:
+					d = e.Int(bo.X)
+				}
+			} else {
+				d = e.Int(ed).Sub(self)
+			}
+			if d.Has(phi.Name()) {
+				return Poly{}, false
+			}
+			if k != nil && !k.Equal(d) {
+				return Poly{}, false
+			}
+			k = &d
+		} else {
+			p := e.Int(ed)
+			if p.Has(phi.Name()) || (c0 != nil && !c0.Equal(p)) {
+				return Poly{}, false
+			}
+			c0 = &p
+		}
+	}
+	if c0 == nil || k == nil || e.VariantIn(*c0, loop) || e.VariantIn(*k, loop) {
+		return Poly{}, false
+	}
+	return c0.Add(k.Mul(Sym(iv.Sym).Sub(iv.Lo))), true
+}
+
+// closureWrites reports whether the closure (or a function nested in it) may
+// store to the captured variable al, or hands its address on.
+func closureWrites(mc *ssa.MakeClosure, al *ssa.Alloc) bool {
+	fn, ok := mc.Fn.(*ssa.Function)
+	if !ok {
+		return true
+	}
+	for i, b := range mc.Bindings {
+		if b != ssa.Value(al) || i >= len(fn.FreeVars) {
+			continue
+		}
+		fv := fn.FreeVars[i]
+		for _, ref := range Refs0(fv) {
+			switch x := ref.(type) {
+			case *ssa.UnOp:
+				if x.Op != token.MUL {
+					return true
+				}
+			case *ssa.DebugRef:
+			default:
+				return true
+			}
+		}
+	}
+	return false
+}
+
+// Refs0 is a nil-safe Referrers.
+func Refs0(v ssa.Value) []ssa.Instruction {
+	r := v.Referrers()
+	if r == nil {
+		return nil
+	}
+	return *r
 }
